@@ -4,6 +4,7 @@ import KitModel.Generated.C14
 import KitProofs.Lemmas.Containers
 import KitProofs.Lemmas.Buffered
 import KitProofs.Lemmas.LinCheck
+import KitProofs.Lemmas.RingGo
 /-!
 # C14 — containers refine their models
 
@@ -273,8 +274,9 @@ theorem ring_new_wellformed [Inhabited α] (h : Heap α) (k : Nat) (v : α) :
   exact ⟨a, c, d, e⟩
 
 /-- `next ∘ prev = id = prev ∘ next` on all allocated nodes is preserved by **every** sequence of
-`New`, zero-value allocation, `Link`, `Unlink` and value writes on arbitrary allocated nodes
-(not only on well-formed rings; `Move`, `Next`, `Prev`, `Len`, `Do` do not write). -/
+`New`, zero-value / literal allocation, `Link`, `Unlink`, value writes and lazy initialisation
+(`touch` = the only write `Next`, `Prev`, `Move`, `Len`, `Do` perform) on arbitrary allocated nodes,
+not only on well-formed rings. -/
 theorem ring_ops_preserve_next_prev_inverse (ops : List ROp) : WF (ops.foldl ringStep #[]) := by
   suffices H : ∀ h, WF h → WF (ops.foldl ringStep h) from H _ wf_empty
   induction ops with
@@ -284,7 +286,8 @@ theorem ring_ops_preserve_next_prev_inverse (ops : List ROp) : WF (ops.foldl rin
     apply ih
     cases op with
     | new n => exact wf_new hw n 0
-    | zero => exact wf_alloc hw 0
+    | zero v => exact wf_alloc hw v
+    | touch r => exact wf_initNode hw r
     | link r s =>
       simp only [ringStep]
       split
@@ -297,7 +300,7 @@ theorem ring_ops_preserve_next_prev_inverse (ops : List ROp) : WF (ops.foldl rin
       · exact hw
     | set r v => exact wf_setVal hw r v
 
-example : WF ([ROp.new 3, .new 2, .link 0 (some 3), .unlink 4 7, .zero, .link 5 (some 1), .link 2 (some 2)].foldl ringStep #[]) :=
+example : WF ([ROp.new 3, .new 2, .link 0 (some 3), .unlink 4 7, .zero 9, .link 5 (some 1), .touch 5, .link 2 (some 2)].foldl ringStep #[]) :=
   ring_ops_preserve_next_prev_inverse _
 
 /-- in a well-formed ring `Next`/`Prev` stay in the ring and invert each other -/
@@ -336,8 +339,9 @@ theorem ring_link_next_is_noop {h : Heap α} {a : Nat} {xs : List Nat} {s : Nat}
     IsRing (link h (lastOf a xs) (some s)).1 (a :: xs ++ s :: ys) ∧ (link h (lastOf a xs) (some s)).2 = s :=
   link_next_noop hr
 
-/-- `Link(nil)` changes nothing and returns `r.Next()` -/
-theorem ring_link_nil (h : Heap α) (r : Nat) : link h r none = (h, next h r) := rfl
+/-- `Link(nil)` only initialises the receiver (like `r.Next()`) and returns `r.Next()` -/
+theorem ring_link_nil (h : Heap α) (r : Nat) : link h r none = (initNode h r, next h r) := by
+  simp [link, next]
 
 /-- **Unlink(n)** removes the `n` elements after `r` (here: fewer than the rest of the ring),
 which form the returned subring -/
@@ -351,9 +355,13 @@ theorem ring_unlink_removes {h : Heap α} {P : List Nat} {r m : Nat} {ms : List 
   have hmv : move h r ((((m :: ms).length : Nat) : Int) + 1) = s := by
     have : ((((m :: ms).length : Nat) : Int) + 1) = (((m :: ms).length + 1 : Nat) : Int) := by simp
     rw [this, move_nonneg]; exact iter_next_links r (m :: ms) s ys hl
-  obtain ⟨a, b, c⟩ := link_split_at hr
-  simp only [unlink, hpos, if_false, hmv]
-  exact ⟨a, b, congrArg some c⟩
+  have hr' : IsRing (initNode h r) (P ++ r :: (m :: ms ++ s :: ys)) := hr.congr (by simp) (by simp) (by simp)
+  obtain ⟨a, b, c⟩ := link_split_at hr'
+  simp only
+  rw [unlink_fst h r _ hpos, unlink_snd h r _ hpos, hmv]
+  refine ⟨a, b, ?_⟩
+  have : nx h r = m := by simpa using c
+  rw [this]
 
 /-- `Unlink(n)` for `n ≤ 0` returns nil and changes nothing -/
 theorem ring_unlink_nonpositive (h : Heap α) (r : Nat) (n : Int) (hn : n ≤ 0) : unlink h r n = (h, none) := by
@@ -401,6 +409,133 @@ theorem ring_move_full_circle {α : Type} {h : Heap α} {l : List Nat} (hr : IsR
 theorem ring_move_backward_inverse {α : Type} {h : Heap α} {l : List Nat} (hr : IsRing h l) {x : Nat} (hx : x ∈ l) (k : Nat) :
     move h (move h x (k : Int)) (-(k : Int)) = x ∧ move h (move h x (-(k : Int))) (k : Int) = x :=
   move_neg_inverse hr hx k
+
+/-! ### zero values, lazy `init()`, and the Go layer -/
+
+/-- Every heap reachable by ring operations is `Lazy`: `next`/`prev` are mutually inverse
+permutations, and a node has both links nil (zero value, nobody points at it) or both set. -/
+theorem ring_ops_preserve_lazy (ops : List ROp) : Lazy (ops.foldl ringStep #[]) := by
+  suffices H : ∀ h, Lazy h → Lazy (ops.foldl ringStep h) from H _ lazy_empty
+  induction ops with
+  | nil => exact fun h hw => hw
+  | cons op ops ih =>
+    intro h hw
+    apply ih
+    cases op with
+    | new n => exact lazy_new hw n 0
+    | zero v => exact lazy_alloc hw v
+    | touch r => exact lazy_initNode hw r
+    | link r s =>
+      simp only [ringStep]
+      split
+      · next hc => exact lazy_link hw hc.1 s hc.2
+      · exact hw
+    | unlink r n =>
+      simp only [ringStep]
+      split
+      · next hc => exact lazy_unlink hw hc n
+      · exact hw
+    | set r v => exact lazy_setVal hw r v
+
+/-- **The Go layer never panics and equals the logical layer.**  On a `Lazy` heap every method,
+executed statement by statement over the raw nil-able fields (lazy `init()`, raw `p.next` in the
+loops, nil dereference = panic), returns normally with exactly the heap and the value of the logical
+layer, whose laws are the theorems of this section. -/
+theorem ring_go_layer_refines {α : Type} [Inhabited α] {h : Heap α} (hl : Lazy h) {r : Nat} (hr : r < h.size) :
+    Go.next h r = .ok (initNode h r, next h r) ∧
+    Go.prev h r = .ok (initNode h r, prev h r) ∧
+    (∀ n, Go.move h r n = .ok (initNode h r, move h r n)) ∧
+    (∀ s, Go.link h r s = .ok (link h r s)) ∧
+    (∀ n, Go.unlink h r n = .ok (unlink h r n)) ∧
+    Go.len h (some r) = .ok (initNode h r, len h r) ∧
+    Go.doAll h (some r) = .ok (initNode h r, doAll h (some r)) :=
+  ⟨go_next_eq hl r, go_prev_eq hl r, go_move_eq hl r, go_link_eq hl r, go_unlink_eq hl r, go_len_eq hl hr, go_do_eq hl hr⟩
+
+/-- a freshly created zero value / literal is an uninitialised node holding its value -/
+theorem ring_alloc_is_zero_value {α : Type} [Inhabited α] {h : Heap α} (hl : Lazy h) (v : α) :
+    Lazy (alloc h v).1 ∧ (alloc h v).2 < (alloc h v).1.size ∧
+    rawNext (alloc h v).1 (alloc h v).2 = none ∧ rawPrev (alloc h v).1 (alloc h v).2 = none ∧
+    vl (alloc h v).1 (alloc h v).2 = v := by
+  refine ⟨lazy_alloc hl v, by simp [alloc], ?_, ?_, ?_⟩
+  · simp [alloc, rawNext_push]
+  · simp [alloc, rawPrev_push]
+  · simp [alloc, vl_push]
+
+/-- **"The zero value for a Ring is a one-element ring."**  An uninitialised node (both links
+nil) is a well-formed ring of exactly itself, and every method of the Go layer, whichever is called
+first, behaves as on a one-element ring and leaves a one-element ring: `Len` = 1, `Do` visits the
+node's own value once, `Next`/`Prev`/`Move(n)` return the node, `Link(itself)`/`Link(nil)` return it,
+`Unlink(n)` removes nothing. -/
+theorem ring_zero_value_is_singleton {α : Type} [Inhabited α] {h : Heap α} (hl : Lazy h) {r : Nat}
+    (hr : r < h.size) (hn : rawNext h r = none) :
+    IsRing h [r] ∧ IsRing (initNode h r) [r] ∧
+    Go.len h (some r) = .ok (initNode h r, 1) ∧
+    Go.doAll h (some r) = .ok (initNode h r, [vl h r]) ∧
+    Go.next h r = .ok (initNode h r, r) ∧
+    Go.prev h r = .ok (initNode h r, r) ∧
+    (∀ n, Go.move h r n = .ok (initNode h r, r)) ∧
+    (∃ h', Go.link h r (some r) = .ok (h', r) ∧ IsRing h' [r]) ∧
+    Go.link h r none = .ok (initNode h r, r) ∧
+    (∀ n, ∃ h' x, Go.unlink h r n = .ok (h', x) ∧ IsRing h' [r] ∧ (x = none ∨ x = some r)) := by
+  have hring := isRing_of_uninit hl hr hn
+  have hring' : IsRing (initNode h r) [r] := hring.congr (by simp) (by simp) (by simp)
+  have hnx : nx h r = r := nx_of_none hn
+  have hpv : pv h r = r := pv_of_none (hl.prev_none hn)
+  have hmv : ∀ n, move h r n = r := by
+    intro n
+    have := ring_move_stays hring (List.mem_singleton.mpr rfl) n
+    simpa using this
+  refine ⟨hring, hring', ?_, ?_, ?_, ?_, ?_, ?_, ?_, ?_⟩
+  · rw [go_len_eq hl hr, len_ring hring]; rfl
+  · rw [go_do_eq hl hr, doAll_ring hring]; rfl
+  · rw [go_next_eq hl r, hnx]
+  · rw [go_prev_eq hl r, hpv]
+  · intro n; rw [go_move_eq hl r, hmv]
+  · refine ⟨(link h r (some r)).1, ?_, ?_⟩
+    · rw [go_link_eq hl r]
+      have : (link h r (some r)).2 = r := by simp [hnx]
+      generalize link h r (some r) = p at this ⊢
+      obtain ⟨a, b⟩ := p
+      simp only at this
+      subst this
+      rfl
+    · refine ⟨trivial, ?_, ?_, by simp, by simpa using hr⟩
+      · have := nx_link h r r hr (by rw [hpv]; exact hr) r
+        show nx (link h r (some r)).1 r = r
+        rw [this]; simp [hpv, hnx]
+      · have := pv_link h r r hr (by rw [hnx]; exact hr) r
+        show pv (link h r (some r)).1 r = r
+        rw [this]; simp [hpv, hnx]
+  · rw [go_link_eq hl r]; simp [link, hnx]
+  · intro n
+    rw [go_unlink_eq hl r]
+    by_cases hn0 : n ≤ 0
+    · exact ⟨h, none, by simp [unlink, hn0], hring, .inl rfl⟩
+    · refine ⟨(unlink h r n).1, (unlink h r n).2, rfl, ?_, .inr ?_⟩
+      · rw [unlink_fst h r n hn0, hmv]
+        have hr' : r < (initNode h r).size := by simpa using hr
+        refine ⟨trivial, ?_, ?_, by simp, by simpa using hr⟩
+        · have := nx_link (initNode h r) r r hr' (by simpa [hpv] using hr) r
+          show nx (link (initNode h r) r (some r)).1 r = r
+          rw [this]; simp [hpv, hnx]
+        · have := pv_link (initNode h r) r r hr' (by simpa [hnx] using hr) r
+          show pv (link (initNode h r) r (some r)).1 r = r
+          rw [this]; simp [hpv, hnx]
+      · rw [unlink_snd h r n hn0, hnx]
+
+/-- **`Do` visits exactly `Len` elements**, for initialised and uninitialised receivers alike:
+on every heap the two loops run in lockstep; on reachable heaps the Go layer returns them. -/
+theorem ring_do_visits_len {α : Type} [Inhabited α] (h : Heap α) (r : Nat) :
+    (doAll h (some r)).length = len h r ∧
+    (Lazy h → r < h.size → ∃ h' vs, Go.doAll h (some r) = .ok (h', vs) ∧ Go.len h (some r) = .ok (h', vs.length)) := by
+  refine ⟨doAll_length h r, fun hl hr => ⟨initNode h r, doAll h (some r), go_do_eq hl hr, ?_⟩⟩
+  rw [go_len_eq hl hr, doAll_length]
+
+example : Go.doAll (alloc (#[] : Heap Int) 7).1 (some 0) = .ok (initNode (alloc (#[] : Heap Int) 7).1 0, [7]) := by
+  have ha := ring_alloc_is_zero_value (lazy_empty (α := Int)) 7
+  have := (ring_zero_value_is_singleton ha.1 ha.2.1 ha.2.2.1).2.2.2.1
+  rw [ha.2.2.2.2] at this
+  exact this
 
 end ring
 
